@@ -78,3 +78,33 @@ def byte_programs():
         out.append({"src": src, "ver": "7.4"})
         out.append({"src": src, "ver": "5.6"})
     return out
+
+
+def signature_programs():
+    """every combination of (type, by-reference, variadic, default) for a parameter, alone and next to parameters of the other
+    shapes, in the four kinds of signature.  The grammars accept all of them (PHP rejects some only when compiling)."""
+    import itertools
+    out = []
+    shapes = []
+    for typ, ref, var, dflt in itertools.product(["", "Foo ", "array ", "?Foo "], ["", "&"], ["", "..."], ["", " = 1", " = null"]):
+        shapes.append((typ, ref, var, dflt))
+    def par(sh, name):
+        return "%s%s%s$%s%s" % (sh[0], sh[1], sh[2], name, sh[3])
+    ctxs = [("function f(%s) {}", ("7.4", "5.6")), ("$c = function(%s) use ($u) {};", ("7.4", "5.6")), ("$c = fn(%s) => 1;", ("7.4",)),
+            ("class C { public function m(%s) { return 1; } }", ("7.4", "5.6")), ("interface I { function m(%s): int; }", ("7.4",))]
+    for sh in shapes:
+        for tmpl, vers in ctxs:
+            for ver in vers:
+                if "?" in sh[0] and ver[0] == "5":
+                    continue
+                out.append({"src": "<?php " + tmpl % par(sh, "a"), "ver": ver})
+    plain, typed, nullable, dfl, ref = ("", "", "", ""), ("Foo ", "", "", ""), ("?Foo ", "", "", " = null"), ("", "", "", " = 1"), ("Bar ", "&", "", "")
+    for combo in itertools.permutations([plain, typed, nullable, dfl, ref], 3):
+        lst = ", ".join(par(sh, "p%d" % i) for i, sh in enumerate(combo))
+        for tmpl, vers in ctxs:
+            out.append({"src": "<?php " + tmpl % lst, "ver": "7.4"})
+    for combo in itertools.permutations([plain, typed, dfl, ref], 2):
+        lst = ", ".join(par(sh, "p%d" % i) for i, sh in enumerate(combo))
+        for tmpl, vers in ctxs[:2] + ctxs[3:4]:
+            out.append({"src": "<?php " + tmpl % lst, "ver": "5.6"})
+    return out
